@@ -114,6 +114,23 @@ Theorem C05_create_tag_fields :
 Proof. exact (conj create_tag_fields (conj total_elements_dims alias_flag_eq)). Qed.
 Print Assumptions C05_create_tag_fields.
 
+(* the 8-byte member record served by the target (info word, type word with or without the array
+   bit, offset) decodes to the member's entry: elementary type by code, array length or BOOL bit
+   number, offset; a structure member (bit 15) goes through _get_data_type (a parameter with the
+   stated contract) *)
+Theorem C05_member_info_decode :
+  forall St gdt (I : ustate -> St -> Prop) (Good : Z -> datatype -> Prop)
+         (Step : ustate -> ustate -> Prop) (Post : Z -> ustate -> Prop),
+    (forall u, Step u u) -> (forall a b c, Step a b -> Step b c -> Step a c) ->
+    (forall tid u u', Post tid u -> Step u u' -> Post tid u') ->
+    forall ab m ms u s,
+      gdt_contract St gdt I Good Step Post ms -> In m ms -> member_fields_ok m -> I u s ->
+      exists s' u' info,
+        parse_member_info St gdt u s (member_rec ab m) = (s', u', Done info)
+        /\ info_good Good m info /\ I u' s' /\ Step u u' /\ (forall tid, m_ty m = BStruct tid -> Post tid u').
+Proof. exact member_info_decode. Qed.
+Print Assumptions C05_member_info_decode.
+
 (* LEN/DATA structures are strings: the code's test on the uploaded members is the test on the
    project; capacity = length of DATA, character area = structure size - 4 *)
 Theorem C05_string_detection :
@@ -172,8 +189,8 @@ Proof.
       * unfold tag_dom. split; [cbn; lia|]. split; [constructor|]. split; [vm_compute; reflexivity|]. split; [vm_compute; reflexivity|].
         split; [|split; intros H; vm_compute in H; discriminate].
         intros _. split; [reflexivity|]. split; [vm_compute; discriminate|]. split; [vm_compute; reflexivity | cbn; lia].
-      * apply Hother; try (vm_compute; reflexivity); [cbn; lia | constructor].
-      * apply Hother; try (vm_compute; reflexivity); [cbn; lia | repeat constructor; lia].
+      * apply Hother; [reflexivity | reflexivity | reflexivity | cbn; lia | constructor | reflexivity | reflexivity].
+      * apply Hother; [reflexivity | reflexivity | reflexivity | cbn; lia | repeat constructor; lia | reflexivity | reflexivity].
     + repeat constructor; try (vm_compute; reflexivity); try (cbn; lia); try (vm_compute; discriminate);
         try (intros l d H; vm_compute in H; discriminate).
       intros l d H. vm_compute in H. injection H as <- <-. intros H. vm_compute in H. discriminate.
@@ -186,3 +203,16 @@ Proof.
     + vm_compute. constructor.
   - vm_compute. repeat constructor; cbn; intuition discriminate.
 Qed.
+
+(* why upload_dom asks for no_pseudo_string: the code's test looks at DATA only.  A structure with
+   visible members LEN : INT and DATA : SINT[8] is taken for a string of capacity 8 (and later read
+   through FixedSizeString, whose UDINT length field then overlaps DATA), while the reference
+   (Spec/Expect.string_shape: LEN must be a DINT) calls it a plain structure.
+   Reproduced on the real driver; repair proposed in proposed_fixes/C05-string-detection-requires-dint-len.diff *)
+Definition ex_pseudo_string : template :=
+  mkTemplate [77; 115; 103] (Some [110; 53]) 801 77 12 0
+             [mkMember txt_LEN (BAtom C_INT) 0 0 0 false; mkMember txt_DATA (BAtom C_SINT) 8 2 0 false].
+Example C05_pseudo_string_differs :
+  template_ok [] ex_pseudo_string = true
+  /\ code_string_test ex_pseudo_string = Some 8 /\ string_shape ex_pseudo_string = None.
+Proof. vm_compute. repeat split; reflexivity. Qed.
